@@ -64,7 +64,13 @@ def gen_msg(rng, tier):
 def chunkings(rng, n, tier, how):
     ''' yield lists of cut positions for an n-octet stream '''
     if how == 'single':
-        for cut in range(1, n):
+        if n <= 600:
+            cuts = range(1, n)
+        else:
+            # a long stream (a message with tens of thousands of data octets): every cut inside the first 200 octets
+            # and 400 cut positions drawn from the rest — all n-1 of them would run for hours in the thorough tier
+            cuts = sorted(set(range(1, 200)) | set(rng.sample(range(200, n), 400)))
+        for cut in cuts:
             yield [cut]
     elif how == 'bytewise':
         yield list(range(1, n))
